@@ -13,7 +13,12 @@ RULE = ("as C03; classes define pre_randomize / post_randomize (inherited by der
 if __name__ == "__main__":
     common.run_main(lambda: worldcheck.standard_main(
         "C17", ["C17"], THEOREMS, {"nops": 6, "deep": 0.6}, 150, 6000,
-        ["callbacks are observed through user methods that append to a log; values assigned by pre_randomize to non-random fields "
-         "and the post_randomize-after-final-values clause are not exercised in this revision",
-         "lists of objects are not generated (C04 is not claimed)"],
-        RULE, keep=lambda w: w.startswith("callback") or w.startswith("used_rand") or w.startswith("instantiation") or w.startswith("world")))
+        ["callbacks are observed through user methods that append to a log, assign a fixed value to a non-random field of their "
+         "class (pre) and read every scalar of the tree (post)",
+         "lists of objects are not generated"],
+        RULE + "; pre_randomize of about half of the classes assigns a value to a non-random field: every formula of the call must "
+        "carry that value as its constant and the field must still hold it afterwards; post_randomize reads every scalar of the tree: "
+        "what it sees must equal the values after the call",
+        keep=lambda w: w.startswith("callback") or w.startswith("used_rand") or w.startswith("instantiation") or w.startswith("world")
+        or w.startswith("post_randomize") or w.startswith("randset") or w.startswith("nonrandom-field-changed")
+        or w.startswith("hard-constraint-violated")))
